@@ -517,6 +517,20 @@ func replaceAllTable(c *core.Ctx, r *core.Report, rule string) {
 				t.ext["(*regexp.Regexp).FindString"] = func(ip *absint.Interp, a []absint.Value) absint.Value {
 					return absint.Str(rx(a[0]).FindString(str(a[1])))
 				}
+				t.ext["(*regexp.Regexp).FindAllString"] = func(ip *absint.Interp, a []absint.Value) absint.Value {
+					n, _ := a[2].(absint.Int)
+					all := rx(a[0]).FindAllString(str(a[1]), int(n))
+					l := &absint.List{IsNil: all == nil}
+					for _, m := range all {
+						l.Elems = append(l.Elems, absint.Str(m))
+					}
+					return l
+				}
+				t.ext["(*regexp.Regexp).ReplaceAllStringFunc"] = func(ip *absint.Interp, a []absint.Value) absint.Value {
+					return absint.Str(rx(a[0]).ReplaceAllStringFunc(str(a[1]), func(m string) string {
+						return str(ip.CallValue(a[2], absint.Str(m)))
+					}))
+				}
 				t.ext["(*regexp.Regexp).MatchString"] = func(ip *absint.Interp, a []absint.Value) absint.Value {
 					return absint.Bool(rx(a[0]).MatchString(str(a[1])))
 				}
